@@ -28,6 +28,10 @@ pub enum Op {
     /// continue on a clone of the board (the original is dropped): a copy must carry the
     /// whole undo history
     CloneBoard,
+    /// direct set-up in the middle of a history (key mode only): put a piece on a square that
+    /// is empty now and in every earlier position of the stack and not touched by any move
+    /// still to be undone
+    Edit(u8, u8, bool),
 }
 
 #[derive(Clone, Copy, Debug, Default)]
@@ -61,6 +65,7 @@ pub fn op_strategy(quiet_w: u32, noisy_w: u32, special_w: u32, undo_w: u32, prob
         (undo_w / 4).max(if undo_w > 0 { 1 } else { 0 }) => (1u8..40).prop_map(Op::Unwind),
         probe_w => (0u8..6).prop_map(Op::Probe),
         1 => Just(Op::CloneBoard),
+        1 => (0u8..64, 1u8..5, any::<bool>()).prop_map(|(s, p, w)| Op::Edit(s, p, w)),
     ]
     .boxed()
 }
@@ -478,6 +483,65 @@ impl Interp {
         self.check_node(&format!("after undo of {}", mv_text(&m)))
     }
 
+    /// Put a piece directly on the board in the middle of a history (only when nothing but the
+    /// key is being judged). The edit is mirrored in the current and in every stacked position.
+    pub fn do_edit(&mut self, sq: u8, pi: u8, white: bool) -> TestResult {
+        let w = self.which;
+        if !w.key || w.undo || w.successor || w.clocks || w.invariants || w.register {
+            return Ok(());
+        }
+        let piece = ALL_P[(pi % 5) as usize];
+        if piece == P::Pawn && (rank_of(sq) == 0 || rank_of(sq) == 7) {
+            return Ok(());
+        }
+        let side = if white { Side::White } else { Side::Black };
+        let touched = |m: &Mv, s: u8| -> bool {
+            if m.from == s || m.to == s {
+                return true;
+            }
+            match m.kind {
+                Kind::Ep => sq_of(file_of(m.to), rank_of(m.from)) == Some(s),
+                Kind::Castle => {
+                    let (rf, rt) = if m.to > m.from { (m.from + 3, m.from + 1) } else { (m.from - 4, m.from - 1) };
+                    s == rf || s == rt
+                }
+                _ => false,
+            }
+        };
+        let mut trial = self.cur.clone();
+        if trial.sq[sq as usize].is_some() || trial.ep == Some(sq) {
+            return Ok(());
+        }
+        trial.sq[sq as usize] = Some((piece, side));
+        if trial.consistent().is_err() {
+            return Ok(());
+        }
+        for (prev, em, _, _) in &self.stack {
+            let m = mv_of(em);
+            if prev.sq[sq as usize].is_some() || prev.ep == Some(sq) || touched(&m, sq) {
+                return Ok(());
+            }
+            let mut t = prev.clone();
+            t.sq[sq as usize] = Some((piece, side));
+            if t.consistent().is_err() {
+                return Ok(());
+            }
+            // the stacked move must still be legal with the extra piece on the board
+            if !t.legal_moves().contains(&m) {
+                return Ok(());
+            }
+        }
+        if self.board.put(bb(sq), to_piece(piece), to_color(side)).is_err() {
+            return Err(fail(format!("put on the empty square {} was refused", sq_name(sq)), &self.cur, json!({})));
+        }
+        self.cur = trial;
+        for (prev, ..) in self.stack.iter_mut() {
+            prev.sq[sq as usize] = Some((piece, side));
+        }
+        self.note("direct-edit-inside-history");
+        self.check_node(&format!("after putting a piece on {} in the middle of the history", sq_name(sq)))
+    }
+
     pub fn do_probe(&mut self, k: u8) -> TestResult {
         if !self.which.probes {
             return Ok(());
@@ -554,6 +618,7 @@ impl Interp {
                 self.note("continued-on-a-clone");
                 Ok(())
             }
+            Op::Edit(sq, pi, white) => self.do_edit(*sq, *pi, *white),
             _ => {
                 let legal = self.cur.legal_moves();
                 // stay inside a legal game: the 75-move rule ends it at 150
@@ -635,6 +700,7 @@ pub fn describe(h: &History) -> serde_json::Value {
             }
             Op::Probe(k) => text.push(format!("probe{}", k % 6)),
             Op::CloneBoard => text.push("clone".into()),
+            Op::Edit(s, p, w) => text.push(format!("put{}{}@{}", if *w { "W" } else { "B" }, p, sq_name(*s))),
             _ => {
                 let legal = cur.legal_moves();
                 if let Some(m) = choose(&cur, &legal, op) {
